@@ -1,6 +1,152 @@
-(* C09 - placeholder while the proofs are written *)
-From Coq Require Import List ZArith NArith.
-From PC Require Import Base.Outcome Model.IndexTable Model.PrimCtor.
+(* C09 - primitive indices are in range and arrays have the documented shapes.
+   Statements only; proofs are in Proofs/IndexTable.v and Proofs/PrimCtor.v.
+
+   [construct kd ins mat s] is the model of TriangleSet / LineSet / Polylist / Polygons
+   construction (Model/PrimCtor.v) on the resolved inputs [ins] and the index stream [s];
+   [exposed p] lists every (data array, index array) pair the primitive exposes together
+   with the documented component count; [exposed_inputs kd ins] lists, from the layout
+   alone, the inputs a primitive of that kind exposes (first VERTEX, first NORMAL, every
+   TEXCOORD, and for triangles every TEXTANGENT / TEXBINORMAL). *)
+From Coq Require Import List ZArith NArith Lia.
+From PC Require Import Base.Outcome Model.IndexTable Model.PrimCtor Proofs.IndexTable Proofs.PrimCtor.
 Import ListNotations.
-Example C09_placeholder : triangleset [Inp 0 VERTEX (Src [[1;2;3]%Z] 3)] None [0;0;0]%N <> Raise DaeMalformed.
-Proof. vm_compute. discriminate. Qed.
+
+(* every entry of every exposed index array is a valid position in its data array ... *)
+Theorem C09_accepted_in_range : forall kd ins mat s p, construct kd ins mat s = Ok p ->
+  Forall (fun vn => in_range (fst vn)) (exposed p).
+Proof. exact accepted_in_range. Qed.
+Print Assumptions C09_accepted_in_range.
+
+(* ... so selecting source[index] never fails: the fancy-indexing model is total on them *)
+Theorem C09_selection_total : forall kd ins mat s p v nc, construct kd ins mat s = Ok p ->
+  In (v, nc) (exposed p) -> exists rows, gather (s_rows (v_src v)) (v_idx v) = Ok rows.
+Proof.
+  intros kd ins mat s p v nc H Hin. pose proof (accepted_in_range _ _ _ _ _ H) as R.
+  rewrite Forall_forall in R. specialize (R _ Hin). eexists. apply gather_total. exact R.
+Qed.
+Print Assumptions C09_selection_total.
+
+(* documented shapes: every index array has len(index) x k entries (N x 3 triangles, N x 2
+   lines, one per polygon corner), every data array has the documented number of components,
+   and for polylists / polygons the vertex counts add up to the number of corners *)
+Theorem C09_shapes : forall kd ins mat s p, construct kd ins mat s = Ok p ->
+  p_kind p = kd /\
+  Forall (fun vn => length (v_idx (fst vn)) = p_nrows p * kind_k kd /\
+                    s_ncomp (v_src (fst vn)) = snd vn) (exposed p) /\
+  (is_poly kd = true -> sum (p_vcounts p) = p_nrows p).
+Proof. exact accepted_shapes. Qed.
+Print Assumptions C09_shapes.
+
+(* the exposed view of an input is exactly the SPEC's position arithmetic on the flat stream:
+   entry (t, c) of the view at offset o is flat[(t*k + c)*nind + o] *)
+Theorem C09_view_is_spec : forall kd ins mat s p inc t c, construct kd ins mat s = Ok p ->
+  In inc (exposed_inputs kd ins) -> t < p_nrows p -> c < kind_k kd ->
+  exists v, In (v, snd inc) (exposed p) /\ v_src v = i_src (fst inc) /\
+    nth c (row (kind_k kd) t (v_idx v)) 0%N =
+    spec_at (kind_k kd) (nind_ins ins) (i_off (fst inc)) (fst (stream_flat (nind_ins ins) s)) t c.
+Proof. exact view_is_spec. Qed.
+Print Assumptions C09_view_is_spec.
+
+(* an index at any corner j of any exposed input that reaches or exceeds the length of that
+   input's source - by any amount - makes construction raise DaeMalformedError *)
+Theorem C09_out_of_range_rejected : forall kd ins mat s, stream_ok kd s -> bucket VERTEX ins <> [] ->
+  (exists inc j, In inc (exposed_inputs kd ins) /\
+     j * nind_ins ins + i_off (fst inc) < length (fst (stream_flat (nind_ins ins) s)) /\
+     (N.of_nat (s_len (i_src (fst inc))) <=
+      nth (j * nind_ins ins + i_off (fst inc)) (fst (stream_flat (nind_ins ins) s)) 0)%N) ->
+  construct kd ins mat s = Raise DaeMalformed.
+Proof. exact out_of_range_rejected. Qed.
+Print Assumptions C09_out_of_range_rejected.
+
+(* a stream whose length is not a multiple of corners x inputs *)
+Theorem C09_ragged_rejected : forall kd ins mat s, stream_ok kd s -> bucket VERTEX ins <> [] ->
+  length (fst (stream_flat (nind_ins ins) s)) mod (kind_k kd * nind_ins ins) <> 0 ->
+  construct kd ins mat s = Raise DaeMalformed.
+Proof. exact ragged_rejected. Qed.
+Print Assumptions C09_ragged_rejected.
+
+(* <polygons>: a single polygon whose own length is not a multiple of the inputs *)
+Theorem C09_polygons_ragged_rejected : forall ins mat ps, bucket VERTEX ins <> [] ->
+  (exists p, In p ps /\ length p mod nind_ins ins <> 0) ->
+  construct KPolygons ins mat (SPolygons ps) = Raise DaeMalformed.
+Proof. exact polygons_ragged_rejected. Qed.
+Print Assumptions C09_polygons_ragged_rejected.
+
+(* a source with the wrong number of components for its semantic, on any exposed input of a
+   non-empty primitive *)
+Theorem C09_components_rejected : forall kd ins mat s, stream_ok kd s -> bucket VERTEX ins <> [] ->
+  length (fst (stream_flat (nind_ins ins) s)) <> 0 ->
+  (exists inc, In inc (exposed_inputs kd ins) /\ s_ncomp (i_src (fst inc)) <> snd inc) ->
+  construct kd ins mat s = Raise DaeMalformed.
+Proof. exact components_rejected. Qed.
+Print Assumptions C09_components_rejected.
+
+(* vertex counts that disagree with the index stream *)
+Theorem C09_vcount_mismatch_rejected : forall kd ins mat s, stream_ok kd s -> is_poly kd = true ->
+  bucket VERTEX ins <> [] ->
+  sum (snd (stream_flat (nind_ins ins) s)) <> length (fst (stream_flat (nind_ins ins) s)) / nind_ins ins ->
+  construct kd ins mat s = Raise DaeMalformed.
+Proof. exact vcount_mismatch_rejected. Qed.
+Print Assumptions C09_vcount_mismatch_rejected.
+
+(* FloatSource: data whose length is not a multiple of the stride *)
+Theorem C09_stride_rejected : forall data ncomp, ncomp <> 0 -> length data mod ncomp <> 0 ->
+  float_source data ncomp = Raise DaeMalformed.
+Proof. exact stride_rejected. Qed.
+Print Assumptions C09_stride_rejected.
+
+Theorem C09_stride_accepted_shape : forall data ncomp src, float_source data ncomp = Ok src ->
+  s_ncomp src = ncomp /\ s_len src * ncomp = length data /\ Forall (fun r => length r = ncomp) (s_rows src).
+Proof. exact stride_accepted. Qed.
+Print Assumptions C09_stride_accepted_shape.
+
+(* whenever a vertex input is present, nothing but DaeMalformedError escapes a constructor *)
+Theorem C09_only_malformed_escapes : forall kd ins mat s e, stream_ok kd s -> bucket VERTEX ins <> [] ->
+  construct kd ins mat s = Raise e -> e = DaeMalformed.
+Proof. exact construct_raise. Qed.
+Print Assumptions C09_only_malformed_escapes.
+
+(* ---- Non-vacuity.  A layout with shared and distinct offsets, a gap (offset 2 unused),
+   two texcoord sets and a tangent set. *)
+Definition ex_v := Src [[0;0;0];[1;0;0];[0;1;0];[0;0;1]]%Z 3.
+Definition ex_n := Src [[0;0;1];[0;1;0]]%Z 3.
+Definition ex_t := Src [[0;0];[1;0];[0;1]]%Z 2.
+Definition ex_ins := [Inp 0 VERTEX ex_v; Inp 1 NORMAL ex_n; Inp 0 TEXCOORD ex_t; Inp 3 TEXCOORD ex_t;
+                      Inp 1 TEXTANGENT ex_n; Inp 2 COLOR ex_t].
+Definition ex_flat : list N := [0;0;9;2; 1;1;9;0; 2;0;9;1;   2;1;9;1; 1;0;9;2; 0;1;9;0]%N.
+
+Example C09_accepted_nonvacuous :
+  exists p, construct KTri ex_ins (Some 1%N) (SFlat ex_flat) = Ok p /\ p_nrows p = 2 /\
+            length (exposed p) = 5 /\
+            option_map v_idx (p_vertex p) = Some [0;1;2;2;1;0]%N.
+Proof. eexists. vm_compute. repeat split. Qed.
+
+(* the hypotheses of the rejection theorems are met by concrete inputs, and the same layout is
+   accepted when the defect is removed (so rejection is not "everything is rejected") *)
+Example C09_out_of_range_nonvacuous :
+  let bad := [0;0;9;2; 1;1;9;0; 2;0;9;1;   2;1;9;1; 1;0;9;2; 0;1;9;3]%N in   (* last corner, texcoord set 1: 3 >= 3 *)
+  construct KTri ex_ins None (SFlat bad) = Raise DaeMalformed /\
+  (exists inc j, In inc (exposed_inputs KTri ex_ins) /\
+     j * nind_ins ex_ins + i_off (fst inc) < length bad /\
+     (N.of_nat (s_len (i_src (fst inc))) <= nth (j * nind_ins ex_ins + i_off (fst inc)) bad 0)%N).
+Proof.
+  split; [vm_compute; reflexivity|].
+  exists (Inp 3 TEXCOORD ex_t, 2), 5. vm_compute. repeat split; auto. discriminate.
+Qed.
+
+Example C09_far_out_of_range_first_corner :
+  construct KLine [Inp 0 VERTEX ex_v; Inp 0 NORMAL ex_n] None (SFlat [2147483647; 0]%N) = Raise DaeMalformed.
+Proof. vm_compute. reflexivity. Qed.
+
+Example C09_polylist_nonvacuous :
+  (exists p, construct KPolylist [Inp 0 VERTEX ex_v; Inp 1 NORMAL ex_n] None
+               (SPolylist [0;0; 1;1; 2;0;  3;1; 0;0; 1;1; 2;0]%N [3; 4]) = Ok p /\ p_nrows p = 7) /\
+  construct KPolylist [Inp 0 VERTEX ex_v; Inp 1 NORMAL ex_n] None
+    (SPolylist [0;0; 1;1; 2;0;  3;1; 0;0; 1;1; 2;0]%N [3; 3]) = Raise DaeMalformed /\
+  construct KPolylist [Inp 0 VERTEX ex_v; Inp 1 NORMAL ex_n] None
+    (SPolylist [0;0; 1;1; 2;0;  3;1; 0;0; 1;1; 2]%N [3; 3]) = Raise DaeMalformed /\
+  construct KPolygons [Inp 0 VERTEX ex_v; Inp 1 NORMAL ex_n] None
+    (SPolygons [[0;0;1]; [1;2;0]]%N) = Raise DaeMalformed /\
+  construct KTri [Inp 0 VERTEX ex_t] None (SFlat [0;1;2]%N) = Raise DaeMalformed /\
+  float_source [1;2;3;4;5;6;7]%Z 3 = Raise DaeMalformed.
+Proof. split; [eexists|]; vm_compute; repeat split. Qed.
